@@ -233,6 +233,18 @@ def gen_pipeline_case(rng, families=None, methods=('cycles', 'amp'), nsec=(1.0, 
             thr = None
     else:
         thr, bk, route = gen_amp_options(rng, lo)
+        if rng.random() < 0.3 and families is None:
+            # a bursty rhythm near the lower band edge, whole-cycle criterion (fraction 1): the sample-wise detector keeps episodes
+            # of about min_n_cycles periods of f_lo, the fully marked cycles inside them form runs of min_n_cycles - 1 or - 2
+            # cycles, which the run filter has to clear
+            sig, kind = gen_signal(rng, fs, lo, lo + 0.3 * (hi - lo), duration(rng, lo, (3.0, 6.0)), 'bursty')
+            thr['burst_fraction_threshold'] = 1.0
+            thr['min_n_cycles'] = int(rng.choice([4, 5, 6]))
+            if bk:
+                bk.pop('min_n_cycles', None)
+                bk.pop('min_burst_duration', None)
+            route = 1
+            kind = kind + '+short_runs'
         if bk is not None and rng.random() < 0.12:
             # options written for compute_burst_features (which needs these keys) on another recording / band, re-used here:
             # the sampling rate and band of THIS call are its own arguments
